@@ -100,6 +100,44 @@ theorem C07_new_room (chk : Bool) (cand : RoomNode) (room : RoomT) (h : prepareN
       (∀ n ∈ a.userAdminNodes, room.isAdmin n.author n.mdate = true) :=
   prepareNewRoom_sound h
 
+/-- **C07 (decisions, before the earliest new entry).** Whatever the switches: when a candidate for a known room is
+    accepted, the stored definition `old` parses to `r0`, the merged definition parses to `r` (the room that is
+    installed), no list of the merged definition carries an id twice, and in `r` entries with equal key and equal date
+    carry the same payload (`Room.Func` — exactly what `C07_breaks_sameDateReorder` violates), then at every date `t`
+    that precedes all the entries that are new (`NewAfter`: by id, list by list; every entry of a group that is new),
+    EVERY decision of `r` — who is admin, who is a member, who administers the users of which group, who holds which
+    right on which entity — is the decision of `r0`. Proved from the monotonicity of the merge and the Room lemmas
+    (`glast_spec`: the entry in force is one with the greatest date ≤ t). -/
+theorem C07_decisions_past (d : Defects) (room : RoomT) (old cand merged : RoomNode) (upd : Bool)
+    (h : prepareWithHistory d room old cand = some (.ok (merged, upd)))
+    (r0 r : RoomT) (hpo : old.parse = .ok r0) (hpm : merged.parse = .ok r) (hd : merged.idsDistinct = true)
+    (hf : r.Func) (t : Int) (hnew : NewAfter old merged t) : r.SameAt r0 t :=
+  let m := prepareWithHistory_sound h
+  merged_past_stable m.oldAdmins m.oldGroups hpo hpm hd hf hnew
+
+/-- **C07 (decisions = those of the old entries plus the added ones).** The room parsed from the merged definition
+    holds, list by list, the entries of the merged rows (`RoomNode.parse_ok`) — the stored entries, unchanged
+    (`C07_monotone`), and the candidate's new ones, entitled (`C07_entitled_*`) — and its decisions are a function of
+    that SET of entries: any well-formed room `s` holding the same entries, in whatever order they were inserted,
+    decides the same at every date, provided equal key and date mean equal payload in `r`. -/
+theorem C07_decisions_exact (merged : RoomNode) (r s : RoomT) (hpm : merged.parse = .ok r) (hf : r.Func) (ws : s.WF)
+    (hadm : ∀ v, v ∈ r.admins ↔ v ∈ s.admins)
+    (h1 : ∀ a ∈ r.auths, ∃ b ∈ s.auths, b.id = a.id ∧ (∀ v, v ∈ a.users ↔ v ∈ b.users) ∧
+      (∀ v, v ∈ a.userAdmins ↔ v ∈ b.userAdmins) ∧ (∀ v, v ∈ a.rights ↔ v ∈ b.rights))
+    (h2 : ∀ b ∈ s.auths, ∃ a ∈ r.auths, b.id = a.id ∧ (∀ v, v ∈ a.users ↔ v ∈ b.users) ∧
+      (∀ v, v ∈ a.userAdmins ↔ v ∈ b.userAdmins) ∧ (∀ v, v ∈ a.rights ↔ v ∈ b.rights))
+    (t : Int) : r.SameAt s t :=
+  Discret.Room.Room.sameAt_of_sameEntries (RoomNode.parse_ok hpm).2.2 ws hf hadm h1 h2 t
+
+/-- the entries of the installed room are the entries of the merged rows, each of which is a stored row (unchanged)
+    or a row of the candidate that is new to its list -/
+theorem C07_decisions_entries (d : Defects) (room : RoomT) (old cand merged : RoomNode) (upd : Bool)
+    (h : prepareWithHistory d room old cand = some (.ok (merged, upd))) (r : RoomT) (hpm : merged.parse = .ok r) :
+    r.admins = merged.adminNodes.filterMap userOf ∧
+    (∀ y ∈ merged.adminNodes, (∃ c ∈ cand.adminNodes, rowEq y c = true) ∨ ∃ o ∈ old.adminNodes, rowEq y o = true) ∧
+    ∀ au, au ∈ r.auths ↔ ∃ a ∈ merged.authNodes, a.parse = .ok au :=
+  ⟨(RoomNode.parse_ok hpm).1, (prepareWithHistory_sound h).onlyAdmins, RoomNode.parse_auths hpm⟩
+
 /-! ## 2. the full statement needs the intended checks (`Defects.none`) -/
 
 /-- **C07 (authored for that room and that place).** With the intended checks a candidate is accepted
@@ -381,5 +419,46 @@ example : accept Defects.asImplemented w0
     { room10 with adminNodes := [row 101 102 100 0 (.user 0 false)] } = .err .mutated := by decide
 -- a definition that is re-sent unchanged is accepted and changes nothing
 example : accept Defects.asImplemented w0 room10 = .ok w0 := by decide
+
+
+-- the reference room → group is tied to the admins, not to the group row's author: room 11 has two admins (keys 0
+-- and 4); key 0 created group 102, key 4 re-signed its row later (an update of the group); the intended checks
+-- accept the definition as a new room and as an update of the stored one
+def room11 : RoomNode :=
+  { room10 with adminEdges := room10.adminEdges ++ [edge 10 100 32 106 100 0],
+                adminNodes := room10.adminNodes ++ [row 106 102 100 0 (.user 4 true)] }
+example : (match accept Defects.none emptyStore
+      { room11 with authNodes := [{ g102 with node := { row 102 101 100 4 (.other 2) with mdate := 500 } }] } with
+    | .ok s' => (loaded s' 10).isAdmin 4 300 | _ => false) = true := by decide
+example : (match accept Defects.none (stateOf (accept Defects.none emptyStore room11))
+      { room11 with authNodes := [{ g102 with node := { row 102 101 100 4 (.other 2) with mdate := 500 },
+                                               userNodes := g102.userNodes ++ [row 140 102 300 3 (.user 1 true)],
+                                               userEdges := g102.userEdges ++ [edge 102 101 34 140 300 3] }] } with
+    | .ok s' => (loaded s' 10).isUserValidAt 1 350 | _ => false) = true := by decide
+
+-- the decisions clause on the honest update of `w0`: the stored definition, the merged one, the rooms they parse to
+def oldW0 : RoomNode := (readBack false w0 10).getD room10
+def mergedH : RoomNode :=
+  match prepareWithHistory Defects.none (loaded w0 10) oldW0 honestUpdate with
+  | some (.ok (m, _)) => m
+  | _ => room10
+def parsed (r : RoomNode) : RoomT := match r.parse with | .ok x => x | .error _ => Discret.Room.Room.empty 0 0
+
+-- the hypotheses of `C07_decisions_past` hold there: the new entries are dated 300, 400 (and the newer group row 500),
+-- so every date up to 299 qualifies and 300 does not
+example : readBack false w0 10 = some oldW0 ∧
+    (match prepareWithHistory Defects.none (loaded w0 10) oldW0 honestUpdate with
+     | some (.ok (m, u)) => decide (m = mergedH) && u
+     | _ => false) = true ∧
+    (match oldW0.parse with | .ok x => decide (x = parsed oldW0) | .error _ => false) = true ∧
+    (match mergedH.parse with | .ok x => decide (x = parsed mergedH) | .error _ => false) = true ∧
+    mergedH.idsDistinct = true ∧ newAfterB oldW0 mergedH 299 = true ∧ newAfterB oldW0 mergedH 300 = false := by decide
+-- and its conclusion: at 299 every decision of the room installed is the stored room's; at 450 they differ
+example : (parsed mergedH).SameAt (parsed oldW0) 299 :=
+  C07_decisions_past Defects.none (loaded w0 10) oldW0 honestUpdate mergedH true (by rfl) (parsed oldW0) (parsed mergedH)
+    (by rfl) (by rfl) (by decide)
+    ⟨by unfold Discret.Room.UserFunc; decide, by unfold Discret.Room.UserFunc Discret.Room.RightFunc; decide⟩ 299
+    (newAfter_of_bool (by decide))
+example : (parsed mergedH).can 1 2 450 .mutateAll = true ∧ (parsed oldW0).can 1 2 450 .mutateAll = false := by decide
 
 end Discret.RoomNode
